@@ -34,6 +34,26 @@ def num? {α : Type} [Carrier α] (s : String) : Option α :=
 
 def int? (s : String) : Option Int := s.toInt?
 
+def hexVal? (c : Char) : Option Nat :=
+  if '0' ≤ c ∧ c ≤ '9' then some (c.toNat - '0'.toNat)
+  else if 'a' ≤ c ∧ c ≤ 'f' then some (c.toNat - 'a'.toNat + 10)
+  else none
+
+def unhexBytes? : List Char → Option (List UInt8)
+  | [] => some []
+  | [_] => none
+  | a :: b :: rest => do
+    let x ← hexVal? a; let y ← hexVal? b; let r ← unhexBytes? rest
+    pure ((x * 16 + y).toUInt8 :: r)
+
+/-- arbitrary strings (spaces, commas, empty) cross the protocol as `x` followed by the hex of their UTF-8 bytes -/
+def unhex? (s : String) : Option String :=
+  match s.toList with
+  | 'x' :: cs => do
+    let bs ← unhexBytes? cs
+    String.fromUTF8? (ByteArray.mk bs.toArray)
+  | _ => none
+
 /-- JSON string literal (ids and asset names are ASCII without quotes or backslashes) -/
 def jstr (s : String) : String := "\"" ++ s ++ "\""
 
